@@ -15,7 +15,7 @@ import time
 sys.path.insert(0, os.path.dirname(os.path.abspath(__file__)))
 import core  # noqa: E402
 from core import ROOT, BUILD, COQ  # noqa: E402
-from events import pretty  # noqa: E402
+from events import pretty, kind_name  # noqa: E402
 from rng import Rng  # noqa: E402
 
 
@@ -195,6 +195,14 @@ def main():
             il = core.canon(iout.get(cid, []))
             stats['evaluations'] += 1
             stats['trace_lines'] += len(il)
+            kh = stats.setdefault('kind_hits', {})
+            oh = stats.setdefault('opcode_hits', {}).setdefault(comp.NAME, {})
+            for l in il:
+                if len(l) == 5 and l[0] >= 0:
+                    kn = kind_name(l[1])
+                    kh[kn] = kh.get(kn, 0) + 1
+                    if l[1] == 0:
+                        oh[l[3]] = oh.get(l[3], 0) + 1
             v = core.verdict_of(il)
             stats['verdicts'][core_verdict(v)] = stats['verdicts'].get(core_verdict(v), 0) + 1
             nt = len(c['progs'])
@@ -305,6 +313,7 @@ def main():
             'trace_lines_compared': stats['trace_lines'],
             'verdicts': stats['verdicts'], 'threads_hist': stats['threads_hist'], 'ops_hist': stats['ops_hist'],
             'sched_len_hist': stats['sched_len_hist'],
+            'event_kind_hits': stats.get('kind_hits', {}), 'opcode_hits': stats.get('opcode_hits', {}),
             'correspondence_differences': stats['diffs'], 'monitor_hits': stats['monitor_hits'],
             'monitors': spec.get('monitors', []),
             'known_finding_hits': dict(KNOWN_SEEN),
